@@ -221,7 +221,7 @@ fn run_chain(c: &ChainCase) -> Outcome {
 	let tmp = match tempfile::Builder::new().prefix("vh-c20-").tempdir_in(scratch_root()) {
 		Ok(t) => t,
 		Err(e) => {
-			o.fail("harness:tempdir", e.to_string());
+			o.fail("env:tempdir", e.to_string());
 			return o;
 		}
 	};
